@@ -7,6 +7,8 @@ use serde_json::json;
 use std::sync::atomic::{AtomicU64, Ordering};
 
 static NEXT_SERIAL: AtomicU64 = AtomicU64::new(1);
+/// scenarios may ask for a scheduling point inside Drop (a destructor of arbitrary duration)
+pub static DROP_YIELD: std::sync::atomic::AtomicBool = std::sync::atomic::AtomicBool::new(false);
 const MAGIC: u64 = 0x5bd1_e995_9e37_79b9;
 
 pub fn reset_serials() {
@@ -83,6 +85,11 @@ impl Drop for P {
         let valid = a.2 == chk(a.0, a.1);
         let s = if valid { a.1 } else { 0 };
         rt().log_api(json!({"e":"drop","t":tid(),"s":s,"valid":valid}));
+        if DROP_YIELD.load(Ordering::Relaxed) {
+            // the destructor takes a while: whatever is written over this object meanwhile is wrecked below
+            rt().sched(K::PayloadYield, 0, 0);
+            rt().done(K::PayloadYield, 0, 0, 0, true);
+        }
         self.id = 0xdddd_dddd_dddd_dddd;
         self.serial = 0xdddd_dddd_dddd_dddd;
         self.chk = 0;
